@@ -50,6 +50,7 @@ type api struct {
 	start   func() error
 	stop    func() error
 	offered func() error
+	lock    func(bool) // locks / unlocks the poc wallet under the keeper (a locked wallet makes Start refuse)
 	ids     []string
 }
 
@@ -172,7 +173,12 @@ func stress(rng *vh.Rng, a *api, tr *tracker, rec *Rec, G, M int, withStartStop 
 				if len(a.ids) > 0 && !r.Chance(1, 20) {
 					sid = a.ids[r.Intn(len(a.ids))]
 				}
-				switch r.Weighted(30, 10, 12, 3, 2, 2) {
+				switch r.Weighted(30, 10, 12, 3, 2, 2, 1) {
+				case 6:
+					if withStartStop && a.lock != nil {
+						l := r.Chance(1, 3)
+						tr.do("wallet lock/unlock", func() { a.lock(l) })
+					}
 				case 0:
 					ac := uint8(r.Weighted(6, 5, 6, 1, 1))
 					tr.do("ActOnWorkSpace("+actionNames[ac]+")", func() { a.act(sid, ac) })
@@ -204,10 +210,14 @@ func stress(rng *vh.Rng, a *api, tr *tracker, rec *Rec, G, M int, withStartStop 
 	return waitAll(rec, tr, &wg)
 }
 
+// lastWallet is the wallet of the keeper newV1 built last (scenarios run one after the other in a child).
+var lastWallet *kp.FakeWallet
+
 func newV1(dir string, seed uint64, n int, bl int) (*capacity.SpaceKeeper, []string, error) {
 	cfg := config.DefaultConfig()
 	cfg.Miner.ProofDir = []string{dir}
-	ski, err := capacity.NewSpaceKeeperV1(cfg, kp.NewFakeWallet(seed))
+	lastWallet = kp.NewFakeWallet(seed)
+	ski, err := capacity.NewSpaceKeeperV1(cfg, lastWallet)
 	if err != nil {
 		return nil, nil, err
 	}
@@ -253,6 +263,15 @@ func scenario(rng *vh.Rng, idx int, kind string, base string) Rec {
 		defer ctl.Close([]string{dir}, sk)
 		a := v1api(sk)
 		a.ids = ids
+		if w := lastWallet; w != nil {
+			a.lock = func(l bool) {
+				if l {
+					w.Lock()
+				} else {
+					w.Unlock(nil)
+				}
+			}
+		}
 		G, M := rng.Range(4, 16), rng.Range(20, 60)
 		rec.Params = fmt.Sprintf("spaces=%d bl=%d goroutines=%d calls=%d", n, bl, G, M)
 		sk.Start()
@@ -435,7 +454,14 @@ func scenario(rng *vh.Rng, idx int, kind string, base string) Rec {
 		wg.Add(1)
 		go func() {
 			defer wg.Done()
+			w := lastWallet
 			for k := 0; k < 30; k++ {
+				if k%5 == 1 {
+					// a Start that is refused because the poc wallet is locked, then the normal cycle
+					w.Lock()
+					tr.do("Start(wallet locked)", func() { sk.Start() })
+					w.Unlock(nil)
+				}
 				tr.do("Start", func() { sk.Start() })
 				if k%3 == 0 {
 					tr.do("ActOnWorkSpace(plot)", func() { sk.ActOnWorkSpace(ids[k%2], engine.Plot) })
